@@ -181,11 +181,11 @@ def evaluate(ctx, cases):
             lit = sched if isinstance(sched, str) else sched_literal(sched)
             coqcases.append(("(%d, %s)" % (c["n"], lit), exp))
             owner.append(small)
-    fexpr = ("fun ns => let s := run (fst ns) (snd ns) in "
+    fexpr = ("fun (ns : nat * list (nat * choice)) => let s := run (fst ns) (snd ns) in "
              "(pycount s, bad s, map (fun l => (icount (libs s l), zeros s l, "
              "match ist (libs s l) with NotStarted => 0 | Running _ => 1 | DoneOk => 2 | DoneFail => 3 end)) (seq 0 2), "
              "map (fun t => busy s t) (seq 0 (fst ns)))")
-    eqb = ("fun a b => match a, b with (p1, b1, l1, s1), (p2, b2, l2, s2) => "
+    eqb = ("fun (a b : nat * bool * list (nat * nat * nat) * list bool) => match a, b with (p1, b1, l1, s1), (p2, b2, l2, s2) => "
            "Nat.eqb p1 p2 && Bool.eqb b1 b2 && "
            "list_eqb (fun x y => match x, y with (i1, z1, c1), (i2, z2, c2) => Nat.eqb i1 i2 && Nat.eqb z1 z2 && Nat.eqb c1 c2 end) l1 l2 "
            "&& list_eqb Bool.eqb s1 s2 end")
